@@ -1,6 +1,13 @@
 """Per-property configuration of the /verif checks (read by ./check)."""
 
 COMPONENTS = {
+    "experimental": {
+        "real": ["experimental/incremental Executor/Task/Resolve/Run/Evict", "experimental/incremental/queries (File, AST, IR, Link, FDP, FDS)",
+                 "experimental parser, ir lowering (ir.Session), fdp, report (Report, Canonicalize, Renderer)", "source.Openers and source.WKTs",
+                 "golang.org/x/sync/semaphore", "Go runtime and sync"],
+        "stub": ["the disk: source.Opener over an in-memory versioned file map (edits, additions, deletions, transient open errors)",
+                 "goroutine scheduler (seeded, serialising)"],
+    },
     "incremental": {
         "real": ["experimental/incremental Executor, Task, Resolve, Run, Evict (executor.go, task.go)", "golang.org/x/sync/semaphore",
                  "sync.Map, sync.RWMutex, context, Go runtime"],
@@ -24,7 +31,7 @@ _ASSUME_B = [
 
 PROPS = {
     "C05": dict(
-        test="TestC05", engine="B", level="exploration", components="compile",
+        test="TestC05", engine="B", level="exploration", components="compile", nondeterminism_is_violation=True,
         quick_checks=600, thorough_checks=20000, thorough_timeout=7200,
         rule="a case = generated import DAG workload (2-8 files, messages/enums/extensions/custom options, optional injected defects) "
              "x 1-2 Compile calls (MaxParallelism in {1,2,3,4,16}, permuted/duplicated request order, nil or fresh Symbols) "
@@ -92,6 +99,27 @@ PROPS = {
              "distinct = distinct (graph, panics, history, trace hash); non-trivial = the graph has a cycle or a panic actually fired",
         assumptions=_ASSUME_B + ["results computed around an earlier or concurrent panic are not judged for value (callers that propagate Resolve's cancellation error get memoised with it; only termination, panic reporting, non-caching of the panicking query, permits and leaks are judged there)"],
     ),
+    "C35": dict(
+        test="TestC35", engine="B", level="exploration", components="experimental", nondeterminism_is_violation=True,
+        quick_checks=400, thorough_checks=6000, thorough_timeout=10800,
+        rule="a case = generated workspace (2-6 proto files, optionally with defects) x workspace roots x edit history of 1-5 steps from "
+             "{add a type, change a field type, rename a message, add an import (maybe unused/cyclic/missing), drop an import, break/"
+             "repair syntax, add a file, delete a file, re-add a deleted file, toggle a transient open error, touch} each followed by "
+             "evicting the changed paths' File queries and re-running queries.FDS on the long-lived executor (parallelism 1-4) under a "
+             "seeded schedule; oracle = brand-new executor and ir.Session on the same files after each step; distinct = distinct "
+             "(workspace, history, trace hash); non-trivial = more than one step or a step whose batch result has diagnostics",
+        assumptions=_ASSUME_B + ["diagnostics are compared as a multiset of individually rendered diagnostics; an order-only difference is reported under its own class"],
+    ),
+    "C36": dict(
+        test="TestC36", engine="B", level="exploration", components="experimental", nondeterminism_is_violation=True,
+        quick_checks=400, thorough_checks=6000, thorough_timeout=10800,
+        rule="a case = generated invalid workspace (0-12 reportable errors, warnings) x 2-4 runs of queries.FDS on brand-new or warm "
+             "executors with parallelism 1-4 under a seeded schedule (each fresh executor has fresh sync.Map hash seeds), compared with "
+             "an unsimulated run; plus Report.Canonicalize applied to 3 seeded permutations of (a) the real diagnostics and (b) a "
+             "synthetic list of 0-7 diagnostics drawn from small pools (ties, tagged duplicates, span-less diagnostics); distinct = "
+             "distinct (workspace, runs, synthetic list, trace hash); non-trivial = the reference report has at least 2 diagnostics",
+        assumptions=_ASSUME_B + ["the synthetic-list part of the Canonicalize oracle is plain seeded input generation (no schedule in it); it is included because the property states it, not as simulation"],
+    ),
 }
 
 _PURE = "pure function of its input (no schedule, clock, fault or interleaving can change the answer): not a deterministic-simulation target; see DESIGN.md section 4"
@@ -103,9 +131,25 @@ NOT_APPLICABLE = {
     "C39": _PURE, "C40": _PURE + " (histories over a single-threaded structure are just inputs; nothing to inject)", "C41": _PURE,
 }
 _P = "simulation applies (DESIGN.md section 3) but the check is still under construction in this round; not claimed until it runs"
-PENDING = {k: _P for k in ["C16", "C17", "C35", "C36", "C38"]}
+PENDING = {k: _P for k in ["C16", "C17", "C38"]}
 
 MANIFEST_TEXT = {
+    "C35": dict(
+        technique="deterministic simulation: seeded edit histories over a simulated Opener (incl. transient open errors) x seeded schedules (engine B), brand-new executor as reference model",
+        design_ref="DESIGN.md 3.10",
+        level_text="Seeded exploration of edit/evict/recompile histories on one long-lived executor and ir.Session, each recompile "
+                   "running under a seeded interleaving of the query goroutines; after every step the fatal-ness, the diagnostics and "
+                   "the FileDescriptorSet bytes are compared with a brand-new executor on the current files.",
+        level_note="Trusted: harness scheduler, the batch run as oracle, the simulated Opener.",
+    ),
+    "C36": dict(
+        technique="deterministic simulation: repeated runs on fresh/warm executors under seeded schedules and parallelism (engine B); permutation/idempotence oracle for Canonicalize",
+        design_ref="DESIGN.md 3.11",
+        level_text="Seeded exploration of schedules x parallelism x fresh sync.Map hash seeds for the same invalid workspace; the "
+                   "rendered report must be byte-identical (same diagnostics, same order) to an unsimulated run. Canonicalize is "
+                   "checked for order-independence and idempotence on seeded permutations of real and synthetic diagnostic lists.",
+        level_note="Trusted: harness scheduler, report.Renderer as the observation of a report.",
+    ),
     "C34": dict(
         technique="deterministic simulation with fault injection: panicking queries and cyclic graphs x seeded schedules (engine B), bounded-step liveness, leak and permit accounting",
         design_ref="DESIGN.md 3.9",
